@@ -213,6 +213,18 @@ func checkC12(r *evid.Run) {
 			checkEntryPoints(r, pool, two, routes[:7], "grey", false)
 		}
 	})
+	// the malformed-line pool of C02 (items of several depths, every malformation class): every document
+	// through every entry point, simple and massive
+	runDocModel(r, modelRun{Module: "MC_C02", Cfg: "MC_C02_quick.cfg", Timeout: timeout}, func(d *DocState) {
+		if len(d.Doc) == 0 {
+			return
+		}
+		rs := routes
+		if d.N%3 != 0 {
+			rs = routes[:7]
+		}
+		checkEntryPoints(r, pool, c.Doc(d.Doc), rs, d.Verdict, hasRootLine(d.Doc))
+	})
 	r.Set("exhaustive", true)
 	r.Set("rule", "every document of at most MaxLines lines of at most MaxTok tokens over the full 11-token alphabet, run through every entry point (output text/json/yaml/toml/dry-run, walk, mkdir and mkdir dry-run in a jail, verify) x {simple, massive} in isolated worker processes; plus seeded raw byte strings, byte mutations of valid documents and over-long lines; non-trivial = non-empty document")
 	fuzzBytes(r, pool, routes)
@@ -262,6 +274,10 @@ func fuzzBytes(r *evid.Run, pool *wproto.Pool, routes []entryRoute) {
 			inputs = append(inputs, []string{"- " + long, "- a\n  - " + long + "\n- b", long, "- a\n" + strings.Repeat(" ", 70000) + "- b"}[rng.Intn(4)])
 		}
 	}
+	// fixed degenerate inputs: a carriage return as the very last byte, a CRLF document larger than one
+	// read buffer, lone symbols, NUL bytes
+	big := strings.Repeat("- r\r\n  - c\r\n", 400)
+	inputs = append(inputs, "- a\n  - b\r", "\r", "- a\r", "\r\n\r", big, big[:len(big)-1], big[:4096], big[:4097], "#", "##\n#", "-", "*\n+", "- a\x00b\n\x00", "\xef\xbb\xbf- a\n")
 	var wg sync.WaitGroup
 	sem := make(chan struct{}, runtime.NumCPU())
 	for _, in := range inputs {
